@@ -17,6 +17,8 @@ RULE = ('2-3 registered probes and 2-3 unknown names; a text of 3-10 statements 
 TRUSTED_BASE = ['Lean 4.33 kernel', 'axioms ⊆ {propext, Classical.choice, Quot.sound}', 'JSON glue (Gin/Drv)',
                 'harness gen_stmts.py / gindom.py']
 ASSUMPTIONS = ['static registration ("known" = registered); dynamic registration is C19',
+               'acyclic configurations: evaluated references point down the registration order, macros hold no evaluated '
+               'reference to a known configurable and no macro (a cyclic configuration recurses until Python gives up)',
                'a skipped statement contains no reference to an unknown unlisted name (DESIGN §7 D20: the value is parsed before the skip decision)']
 EXPLANATION = ('Lean theorems about shouldSkip / resolveRaw / applyStmts (a skipped statement is a no-op, hence the result '
                'equals that of the text with those statements deleted; known names are never skipped; unlisted unknown '
@@ -54,13 +56,15 @@ def gen_case(rng):
       cls = [x for x, k in G.param_classes(reg).items() if k == 'valid']
       if not cls:
         continue
-      val = S.gen_raw(rng, known, listed, w_ref=0.35, w_unknown=0.5)
+      lower = set(known[:regs.index(reg)])
+      val = _decycle(S.gen_raw(rng, known, listed, w_ref=0.35, w_unknown=0.5), known, lower)
       if rng.random() < 0.75:
         arg = rng.choice(cls)
         S.add_binding(b, scope, reg['_selector'], arg, val)
         S.add_binding(red, scope, reg['_selector'], arg, val)
       else:
-        members = [(a, S.gen_raw(rng, known, listed, w_ref=0.3, w_unknown=0.5)) for a in rng.sample(cls, min(2, len(cls)))]
+        members = [(a, _decycle(S.gen_raw(rng, known, listed, w_ref=0.3, w_unknown=0.5), known, lower))
+                   for a in rng.sample(cls, min(2, len(cls)))]
         S.add_block(b, scope, reg['_selector'], members)
         S.add_block(red, scope, reg['_selector'], members)
     elif r < 0.68:  # unknown target
@@ -74,7 +78,7 @@ def gen_case(rng):
         fails = True
         break
     elif r < 0.8:   # macro, possibly holding an unknown reference
-      val = S.gen_raw(rng, known, listed, w_ref=0.4, w_unknown=0.6)
+      val = _decycle(S.gen_raw(rng, known, listed, w_ref=0.4, w_unknown=0.6), known, set(), no_macros=True)
       name = rng.choice(['m1', 'm2'])
       S.add_binding(b, '', name, '', val)
       S.add_binding(red, '', name, '', val)
@@ -101,6 +105,25 @@ def gen_case(rng):
   ops += [{'op': 'finalize'}, {'op': 'locked'}]
   return {'dom': 'gin', 'ops': ops, '_reduced': red.text(), '_reduced_stmts': red.stmts, '_skip': skip,
           '_expect_fail': fails, '_nregs': len(regs)}
+
+
+def _decycle(val, known, allowed, no_macros=False):
+  """Evaluated references may only point down the registration order (and macros hold none): the
+  configuration stays acyclic, as the fuel-indexed evaluator of the mirror assumes."""
+  if isinstance(val, dict):
+    if 'rawref' in val:
+      scopes, sp, ev = val['rawref']
+      parts = sp.split('.')
+      hits = [k for k in known if k.split('.')[-len(parts):] == parts]
+      if ev and any(h not in allowed for h in hits):
+        return {'rawref': [scopes, sp, False]}
+      return val
+    if 'rawmacro' in val:
+      return 0 if no_macros else val
+    return {k: _decycle(v, known, allowed, no_macros) for k, v in val.items()}
+  if isinstance(val, list):
+    return [_decycle(v, known, allowed, no_macros) for v in val]
+  return val
 
 
 def gen_cases(rng, tier, boost=1):
